@@ -241,6 +241,7 @@ func call(f func() ([]byte, error)) (out []byte, err error, stack string) {
 
 func main() {
 	r := common.Start("C09", "model_checking")
+	r.ColdStart(coldProbes())
 	// io.Copy inside golib allocates a 32 KiB buffer per call: tens of millions of short-lived
 	// buffers over a tiny live heap, so let the heap grow further between collections.
 	debug.SetGCPercent(800)
@@ -254,6 +255,7 @@ func main() {
 	}
 	srand.Reader = saved
 	secretLengths(r)
+	histories(r)
 	garbage(r, a)
 	randFaults(r, a)
 	srand.Reader = &saltReader{salt: salts[1]}
